@@ -922,3 +922,172 @@ def rule_label_store_arithmetic(ctx):
 
 def _lf(d):
     return " ".join("%+d*%s" % (v, k) if k != 1 else "%+d" % v for k, v in sorted(d.items(), key=str)) or "0"
+
+
+def rule_attack_orientation(ctx):
+    """C12: which end of an attack goes where - the writers against the readers"""
+    prog = ctx.prog
+    from ..prov import prov, show, subterms, leaves
+    from .splits import linear
+    from .grounded import inherited_conditions, _cond_trees, _is_call
+
+    r = ctx.rule(
+        "attack-orientation",
+        "readers: `Attack::attacker()` is built from one component of the stored pair, `attacked()` from the other; `iter_attacks_from(a)` reads one "
+        "index table at a's id, `iter_attacks_to(a)` the other. Writers agree with them: `new_attack(from, to)` / `new_attack_by_ids` store the pair "
+        "with `from` in the attacker component, enter the new attack in the `from` table at the attacker's id and in the `to` table at the attacked "
+        "id; the duplicate test and `remove_attack` compare with that same pair; `remove_argument` tombstones the attacks of both tables of the "
+        "removed id; `new_attack_by_ids` rejects exactly the ids >= the argument count",
+    )
+    fw = prog.adt(AAF)
+    if not r.require_anchor(fw, "type " + AAF):
+        return
+    pair_f = [f["name"] for v in fw["variants"] for f in v["fields"] if re.search(r"Vec<core::option::Option<\(usize, usize\)>>", f["ty"])]
+    list_f = [f["name"] for v in fw["variants"] for f in v["fields"] if f["ty"].replace(" ", "") == "alloc::vec::Vec<alloc::vec::Vec<usize>>"]
+    if not r.require_anchor(len(pair_f) == 1 and len(list_f) == 2, "the attack vector and the two index tables of " + AAF):
+        return
+    # --- readers
+    att = [b for b in prog.lib_bodies() if b.kind != "closure" and b.impl and (b.impl.get("self_adt") or "").endswith("aa_framework::Attack") and b.n_args == 1]
+    comp_of = {}
+    for b in att:
+        nm = b.path.rsplit("::", 1)[-1]
+        for e in prov(prog, b, {"l": 0, "p": []}):
+            if e[0] == "param" and e[3]:
+                comp_of[nm] = e[3][0]
+    if not r.require_anchor(set(comp_of) >= {"attacker", "attacked"} and comp_of["attacker"] != comp_of["attacked"], "Attack::attacker / Attack::attacked reading two different fields"):
+        return
+    pair_comp = {}  # role -> component of the stored pair
+    table_of = {}  # 'from' / 'to' -> field
+    for nm, role in (("iter_attacks_from_id", "from"), ("iter_attacks_from", "from"), ("iter_attacks_to", "to"), ("iter_attacks", None)):
+        b = prog.lib(AAF + "::<T>::" + nm)
+        if b is None:
+            continue
+        for y in prog.with_closures(b):
+            for e in prov(prog, y, {"l": 0, "p": []}):
+                if e[0] == "agg" and e[1] == "Attack" and len(e[2]) == 2:
+                    for k, comp in enumerate(e[2]):
+                        flds = [t[2] for t in subterms(comp) if isinstance(t, tuple) and t[0] == "field" and isinstance(t[1], tuple) and t[1][0] == "elem" and t[2] in ("0", "1")]
+                        if len(set(flds)) == 1:
+                            rl = "attacker" if comp_of["attacker"] == str(k) else "attacked"
+                            pair_comp.setdefault(rl, set()).add(flds[0])
+                    if role:
+                        for t in subterms(e):
+                            if _is_call(t, r"Index::index$", 2) and t[2][0][0] == "param" and t[2][0][3] and t[2][0][3][0] in list_f:
+                                table_of.setdefault(role, set()).add(t[2][0][3][0])
+    ok_r = all(len(pair_comp.get(x, ())) == 1 for x in ("attacker", "attacked")) and pair_comp["attacker"] != pair_comp["attacked"] and all(len(table_of.get(x, ())) == 1 for x in ("from", "to")) and table_of["from"] != table_of["to"]
+    if not r.check(ok_r, AAF + "|readers", "readers:%s/%s" % ({k: sorted(v) for k, v in pair_comp.items()}, {k: sorted(v) for k, v in table_of.items()}), "the iterators agree on the orientation of the pair and on one table per direction", "the iterators of the framework do not agree with each other on which component of a stored pair is the attacker, or on which index table serves which direction", None):
+        return
+    ca, cd = int(next(iter(pair_comp["attacker"]))), int(next(iter(pair_comp["attacked"])))
+    tf, tt = next(iter(table_of["from"])), next(iter(table_of["to"]))
+    r.ok(AAF + "|readers", "attacker = component %d of the pair, attacked = component %d; from-table `%s`, to-table `%s`" % (ca, cd, tf, tt), None)
+    n = 0
+
+    def side_params(tree, fn):
+        """which of the parameters (from = 2, to = 3) an id expression stands for: the label looked up, or the id parameter itself"""
+        looked = set()
+        for t in subterms(tree):
+            if _is_call(t, r"get_argument$|get_label$", 2):
+                looked |= {l[2] for l in leaves(t[2][1]) if l[0] == "param" and l[1] == fn.path and l[2] in (2, 3)}
+        if looked:
+            return looked
+        return {l[2] for l in leaves(tree) if l[0] == "param" and l[1] == fn.path and l[2] in (2, 3)}
+
+    def pair_of(e):
+        """(attacker tree, attacked tree) of a `Some((x, y))` tree"""
+        if e[0] == "agg" and e[1] == "Some" and len(e[2]) == 1 and e[2][0][0] == "agg" and e[2][0][1] == "tuple" and len(e[2][0][2]) == 2:
+            c = e[2][0][2]
+            return c[ca], c[cd]
+        return None
+
+    for nm in ("new_attack", "new_attack_by_ids"):
+        b = prog.lib(AAF + "::<T>::" + nm)
+        if b is None:
+            continue
+        stored = None
+        for s in b.calls():
+            if callee_decl(callee_of(s)) == "alloc::vec::Vec::push" and any(e[0] == "param" and e[3] and e[3][0] == pair_f[0] for e in prov(prog, b, s.node["args"][0])):
+                for e in prov(prog, b, s.node["args"][1]):
+                    stored = pair_of(e) or stored
+        anchor = b.id
+        if stored is None:
+            r.ok(anchor, "NOT decided: the stored pair is not a `Some((x, y))` built in place", b.loc())
+            continue
+        n += 1
+        xa, xd = stored
+        pa = side_params(xa, b)
+        pd = side_params(xd, b)
+        r.check(pa == {2} and pd == {3}, anchor, "pair-orientation:%s/%s" % (sorted(pa), sorted(pd)), "the pair is stored as (from, to)", "%s(from, to) stores the pair with %s in the attacker component and %s in the attacked one: the attack comes out reversed" % (nm, "`to`" if pa == {3} else sorted(pa), "`from`" if pd == {2} else sorted(pd)), b.loc())
+        for s in b.calls():
+            if callee_decl(callee_of(s)) != "alloc::vec::Vec::push":
+                continue
+            for e in prov(prog, b, s.node["args"][0]):
+                if _is_call(e, r"IndexMut::index_mut$|Index::index$", 2) and e[2][0][0] == "param" and e[2][0][3] and e[2][0][3][0] in list_f:
+                    tbl = e[2][0][3][0]
+                    want = xa if tbl == tf else xd
+                    n += 1
+                    r.check(e[2][1] == want, anchor + "|" + tbl, "table-key:%s" % tbl, "the new attack is entered in `%s` at the %s id" % (tbl, "attacker's" if tbl == tf else "attacked argument's"), "the new attack is entered in `%s` at %s, but that table is read by %s with the %s id" % (tbl, show(e[2][1])[:60], "iter_attacks_from" if tbl == tf else "iter_attacks_to", "attacker's" if tbl == tf else "attacked argument's"), s.loc())
+    # duplicate test and removal compare with the same pair
+    for nm in ("new_attack", "remove_attack"):
+        b = prog.lib(AAF + "::<T>::" + nm)
+        if b is None:
+            continue
+        for y in prog.with_closures(b):
+            for s in y.calls():
+                if not callee_decl(callee_of(s)).endswith("PartialEq::eq"):
+                    continue
+                for a in s.node["args"]:
+                    for e in prov(prog, y, a):
+                        pr = pair_of(e)
+                        if pr is None:
+                            continue
+                        n += 1
+                        pa = side_params(pr[0], b)
+                        pd = side_params(pr[1], b)
+                        r.check(pa == {2} and pd == {3}, b.id + "|compare", "compared-pair:%s/%s" % (sorted(pa), sorted(pd)), "%s looks for the pair (from, to)" % nm, "%s(from, to) compares the stored attacks with the pair (%s, %s): it finds the reverse attack" % (nm, "to" if pa == {3} else "?", "from" if pd == {2} else "?"), s.loc())
+    # remove_argument covers both tables of the removed id
+    b = prog.lib(AAF + "::<T>::remove_argument")
+    if b is not None:
+        seen_tables = set()
+        for y in prog.with_closures(b):
+            for s in y.calls():
+                if callee_decl(callee_of(s)) == "core::option::Option::take":
+                    for e in prov(prog, y, s.node["args"][0]):
+                        for t in subterms(e):
+                            if _is_call(t, r"Index::index$", 2) and t[2][0][0] == "param" and t[2][0][3] and t[2][0][3][0] in list_f:
+                                seen_tables.add(t[2][0][3][0])
+        if seen_tables:
+            n += 1
+            r.check(seen_tables == {tf, tt}, b.id + "|both-directions", "tombstoned-tables:%s" % sorted(seen_tables), "the attacks from and to the removed argument are tombstoned", "remove_argument tombstones only the attacks listed in %s: the attacks in the other direction survive their argument" % sorted(seen_tables), b.loc())
+        else:
+            r.ok(b.id + "|both-directions", "NOT decided: no `take()` of attack slots reached through the index tables", b.loc())
+    # new_attack_by_ids: the rejected ids
+    b = prog.lib(AAF + "::<T>::new_attack_by_ids")
+    if b is not None:
+        errs = [st for st in b.sites() if st.si is not None and st.node["k"] == "assign" and st.node["rv"]["k"] == "aggregate" and st.node["rv"]["agg"].get("variant") == "Err"]
+        pushes = [s for s in b.calls() if callee_decl(callee_of(s)) == "alloc::vec::Vec::push"]
+        for s in pushes[:1]:
+            for c, t in _cond_trees(prog, inherited_conditions(prog, b, s.bb)):
+                if c[0] == "op" and c[1] in ("Lt", "Le", "Gt", "Ge") and len(c[2]) == 2:
+                    def atom(x):
+                        if x[0] == "param" and x[1] == b.path and x[2] in (2, 3) and not x[3]:
+                            return "id"
+                        if _is_call(x, r"ArgumentSet::len$|n_arguments$|LabelSet::len$"):
+                            return "n"
+                        return None
+                    a_, b_ = linear(c[2][0], atom), linear(c[2][1], atom)
+                    if a_ is None or b_ is None:
+                        continue
+                    d = dict(a_)
+                    for k, v in b_.items():
+                        d[k] = d.get(k, 0) - v
+                    d = {k: v for k, v in d.items() if v != 0}
+                    k0 = d.pop(1, 0)
+                    op = c[1] if t else {"Lt": "Ge", "Le": "Gt", "Gt": "Le", "Ge": "Lt"}[c[1]]
+                    if d == {"id": -1, "n": 1}:
+                        op = {"Lt": "Gt", "Le": "Ge", "Gt": "Lt", "Ge": "Le"}[op]
+                        k0 = -k0
+                    elif d != {"id": 1, "n": -1}:
+                        continue
+                    n += 1
+                    r.check((op, k0) in (("Lt", 0), ("Le", 1)), b.id + "|bound", "id-bound:%s%+d" % (op, k0), "an attack is entered only for ids < n", "new_attack_by_ids enters an attack when `id - n %+d %s 0`: an id equal to the argument count gets past the test and panics on the index tables" % (k0, {"Lt": "<", "Le": "<=", "Gt": ">", "Ge": ">="}[op]), s.loc())
+    r.floor(n, 6, "writer / comparison sites judged against the readers")
